@@ -232,6 +232,13 @@ def _answers(g, n, arcs, which):
                 t += [997]
             t += gview(subs[0]) + gview(subs[1])
             t += gview(subs[2]) + gview(subs[3])
+        for x in V:
+            # collections: all descendants / ancestors at once (True), the same plus the node itself (False: a node of a DAG is never
+            # its own ancestor), the node alone in the three argument forms
+            ds, an = sorted(g.get_descendants(N[x])), sorted(g.get_ancestors(N[x]))
+            if (not g.is_ancestor(N[x], ds) or not g.is_descendant(N[x], set(an)) or g.is_ancestor(N[x], ds + [N[x]]) or g.is_descendant(N[x], an + [N[x]])
+                    or g.is_ancestor(N[x], N[x]) or g.is_ancestor(N[x], [N[x]]) or g.is_descendant(N[x], N[x]) or g.is_descendant(N[x], {N[x]})):
+                t += [996]
         for x, y in opairs:
             a = g.is_ancestor(N[x], N[y])
             d = g.is_descendant(N[x], N[y])
